@@ -60,6 +60,11 @@ pub const FILE_NAMES: &[(&str, &str)] = &[
     ("LONG", "long"),
     ("LONGCJK", "long-cjk"),
     ("/abs/issue#12/what?.js", "hash-and-question-mark"),
+    ("/abs/dir/gen\\util.js", "backslash-in-base-name"),
+    ("file://app.mjs", "file-url-no-path"),
+    ("file://", "file-url-empty"),
+    ("file:///abs/dir/a.mjs", "file-url"),
+    ("file://C:\\app\\dist\\index.js", "file-url-windows"),
 ];
 
 fn file_name(rng: &mut Rng) -> (String, &'static str) {
@@ -393,11 +398,19 @@ fn gen_source(rng: &mut Rng, big: bool) -> (String, &'static str, bool) {
             (s, "nested", true)
         }
         18 => (String::new(), "empty", true),
-        19 => (
-            format!("{}\nfunction clash(a, b) {{\n  let __datadog_test_7 = a + b;\n  return __datadog_test_7;\n}}\n", p),
-            "reserved-prefix",
-            true,
-        ),
+        19 => {
+            // the reserved prefix of the tracer-like configuration in various placements
+            let clash = match rng.below(7) {
+                0 => "function clash(a, b) {\n  let __datadog_test_7 = a + b;\n  return __datadog_test_7;\n}\n",
+                1 => "function clash(a, b) {\n  const g = (x) => __datadog_test_0 + x;\n  return g(a) + b;\n}\n",
+                2 => "function clash(a, b) {\n  const g = (__datadog_test_1) => __datadog_test_1 + a;\n  return g(a) + b;\n}\n",
+                3 => "function clash(a, b) {\n  return [a].map((x) => (y) => __datadog_test_0 + x + y)[0](b) + a;\n}\n",
+                4 => "const top = (a, b) => { return ((x) => __datadog_test_2 + x)(a) + b; };\n",
+                5 => "function clash(a, b) {\n  try { return a + b; } catch (__datadog_test_0) { return ((e) => e + __datadog_test_0)(b); }\n}\n",
+                _ => "function clash(a, b) {\n  class __datadog_test_3 { m() { return a + b; } }\n  return new __datadog_test_3().m() + a;\n}\n",
+            };
+            (format!("{}\n{}", p, clash), "reserved-prefix", true)
+        }
         _ => (format!("#!/usr/bin/env node\n{}", p), "hashbang", true),
     }
 }
